@@ -30,6 +30,62 @@ Definition wf_dirs (a : adb) : Prop :=
     placeholder (fst r1) = false -> placeholder (fst r2) = false ->
     under (fst r1) (fst r2) = false.
 
+(* the first stack that declares a version is the same in a database and in one that holds it *)
+Lemma find_exact_sub a a0 n v f : forall roots s1 rr s0 r0,
+  (forall s r, a_decl a s n v f = Some r -> a_decl a0 s n v f = Some r) ->
+  find_exact a roots n v f = Some (s1, rr) -> find_exact a0 roots n v f = Some (s0, r0) ->
+  a_decl a s0 n v f <> None -> s1 = s0.
+Proof.
+  induction roots as [|s roots IH]; intros s1 rr s0 r0 Hs F F0 N; cbn in F, F0; [discriminate|].
+  destruct (a_decl a s n v f) as [x|] eqn:E.
+  - rewrite (Hs s x E) in F0. inversion F. inversion F0. subst. reflexivity.
+  - destruct (a_decl a0 s n v f) as [y|] eqn:E0.
+    + inversion F0. subst. contradiction.
+    + apply (IH _ _ _ _ Hs F F0 N).
+Qed.
+
+(* with pairwise non-nested installation directories no directory of a removed product is lived in by anybody else:
+   the fix C14-remove-keeps-shared-directory changes nothing *)
+Lemma destroy_keep_irrelevant c a0 : wf_dirs a0 -> forall ps removed st,
+  NoDup ps -> all_real ps ->
+  (forall s n v f r, a_decl (rdb st) s n v f = Some r -> a_decl a0 s n v f = Some r) ->
+  apath (rdb st) = apath a0 ->
+  destroy true c a0 ps removed st = destroy false c a0 ps removed st.
+Proof.
+  intro Hd. induction ps as [|p ps IH]; intros removed st ND AR Hsub Hp; [reflexivity|].
+  destruct (AR p (or_introl eq_refl)) as [n1 [v1 ->]]. inversion ND as [|? ? Hnotin ND']. subst.
+  cbn [destroy]. unfold nname, nver. cbn [fst snd]. rewrite undeclare_some.
+  destruct (find_exact (rdb st) (apath (rdb st)) n1 v1 (rc_flavor c)) as [[s1 rr]|] eqn:F; [|reflexivity].
+  set (a' := aapply (ADelDecl s1 n1 v1 (rc_flavor c)) (rdb st)).
+  destruct (find_exact_some _ _ _ _ _ _ _ F) as [_ E1].
+  assert (Hds : dir_step true c a0 a' (n1, Some v1, true) removed (rfs st) =
+                dir_step false c a0 a' (n1, Some v1, true) removed (rfs st)).
+  { unfold dir_step. destruct (mem_odir (product_dir c a0 (n1, Some v1, true)) removed); [reflexivity|].
+    destruct (product_dir c a0 (n1, Some v1, true)) as [dir|] eqn:P; [|reflexivity].
+    destruct (placeholder dir) eqn:Ph; [reflexivity|]. cbn [andb].
+    destruct (in_use c a' dir) eqn:U; [exfalso|reflexivity].
+    apply in_use_true in U as [s [n [v [f [r [Is [If [E [Phr Ud]]]]]]]]].
+    unfold a' in E. rewrite a_decl_aapply in E. rewrite E1 in E. cbn [is_some andb] in E.
+    destruct (dkey_eqb (s, n, v, f) (s1, n1, v1, rc_flavor c)) eqn:Ek; [discriminate|].
+    unfold product_dir, nver, nname in P. cbn [fst snd] in P.
+    destruct (find_exact a0 (apath a0) n1 v1 (rc_flavor c)) as [[s0 r0]|] eqn:F0; [|discriminate].
+    inversion P. subst dir. destruct (find_exact_some _ _ _ _ _ _ _ F0) as [_ E0].
+    destruct (dkey_eqb (s, n, v, f) (s0, n1, v1, rc_flavor c)) eqn:Ek0.
+    - apply dkey_eqb_eq in Ek0. inversion Ek0. subst.
+      assert (s1 = s0).
+      { rewrite Hp in F. apply (find_exact_sub (rdb st) a0 n1 v1 (rc_flavor c) (apath a0) s1 rr s0 r0);
+          [intros s2 r2; apply Hsub|exact F|exact F0|rewrite E; discriminate]. }
+      subst s1. rewrite dkey_eqb_refl in Ek. discriminate.
+    - assert (Nk : (s0, n1, v1, rc_flavor c) <> (s, n, v, f)).
+      { intro X. rewrite X, dkey_eqb_refl in Ek0. discriminate. }
+      rewrite (Hd _ _ _ _ _ _ _ _ _ _ E0 (Hsub _ _ _ _ _ E) Nk Ph Phr) in Ud. discriminate. }
+  rewrite Hds. destruct (dir_step false c a0 a' (n1, Some v1, true) removed (rfs st)) as [[removed' fs']|e]; [|reflexivity].
+  apply IH; [exact ND'|apply (all_real_tail _ _ AR)| |].
+  - cbn [rdb]. intros s n v f r E. apply Hsub. fold a' in E. unfold a' in E. rewrite a_decl_aapply in E.
+    destruct (is_some (a_decl (rdb st) s1 n1 v1 (rc_flavor c)) && dkey_eqb (s, n, v, f) (s1, n1, v1, rc_flavor c)); [discriminate|exact E].
+  - cbn [rdb]. unfold a'. rewrite apath_aapply. exact Hp.
+Qed.
+
 (* the real directories of the asked products exist *)
 Definition dirs_present (w : world) (c : rconf) (st : rstate) (n v : str) (recursive : bool) : Prop :=
   forall q dir, asked w n v recursive q -> product_dir c (rdb st) q = Some dir -> placeholder dir = false ->
@@ -53,52 +109,52 @@ Qed.
 
 (* ---------------------------------------------------------------- the two phases *)
 
-Lemma remove_inv fuel w c st n v recursive chk res st' :
-  remove_fixed fuel w c st n v recursive chk = (res, st') ->
+Lemma remove_inv keep fuel w c st n v recursive chk res st' :
+  remove true true keep fuel w c st n v recursive chk = (res, st') ->
   exists idx, (if chk then uses_index fuel w = Ok idx \/ (exists e, uses_index fuel w = Err e /\ res = Err e /\ st' = st)
                else idx = []) /\
     ((exists e, res = Err e /\ st' = st /\
-        (collect true true chk w idx c (n, v) fuel [] n (Some v) recursive = Err e \/
+        (collect true true chk w idx c (Some (n, v)) fuel [] n (Some v) recursive = Err e \/
          (chk = true /\ uses_index fuel w = Err e))) \/
-     (exists l s', collect true true chk w idx c (n, v) fuel [] n (Some v) recursive = Ok (l, s') /\
-                   destroy c (rdb st) (uniq_nodes l) [] st = (res, st'))).
+     (exists l s', collect true true chk w idx c (Some (n, v)) fuel [] n (Some v) recursive = Ok (l, s') /\
+                   destroy keep c (rdb st) (uniq_nodes l) [] st = (res, st'))).
 Proof.
-  unfold remove_fixed, remove. destruct chk.
+  unfold remove. destruct chk.
   - destruct (uses_index fuel w) as [idx|e] eqn:U.
     + intro H. exists idx. split; [left; reflexivity|].
-      destruct (collect true true true w idx c (n, v) fuel [] n (Some v) recursive) as [[l s']|e] eqn:K.
+      destruct (collect true true true w idx c (Some (n, v)) fuel [] n (Some v) recursive) as [[l s']|e] eqn:K.
       * right. exists l, s'. auto.
       * left. exists e. inversion H. auto.
     + intro H. exists []. inversion H. subst. split; [right; exists e; auto|]. left. exists e. auto.
   - intro H. exists []. split; [reflexivity|].
-    destruct (collect true true false w [] c (n, v) fuel [] n (Some v) recursive) as [[l s']|e] eqn:K.
+    destruct (collect true true false w [] c (Some (n, v)) fuel [] n (Some v) recursive) as [[l s']|e] eqn:K.
     + right. exists l, s'. auto.
     + left. exists e. inversion H. auto.
 Qed.
 
 Lemma listed_iff_asked chk w idx c fuel n v recursive l s' :
   wf_world w -> default_undeclared w c -> declared w n v = true ->
-  collect true true chk w idx c (n, v) fuel [] n (Some v) recursive = Ok (l, s') ->
+  collect true true chk w idx c (Some (n, v)) fuel [] n (Some v) recursive = Ok (l, s') ->
   forall q, In q (uniq_nodes l) <-> asked w n v recursive q.
 Proof.
   intros Hwf Hdef D H q. rewrite uniq_nodes_In, (asked_dpath _ _ _ _ _ Hwf D).
-  apply (collect_exact chk w idx c (n, v) Hwf Hdef _ _ _ _ _ _ H D).
+  apply (collect_exact chk w idx c (Some (n, v)) Hwf Hdef _ _ _ _ _ _ H D).
 Qed.
 
 Lemma listed_real chk w idx c fuel n v recursive l s' :
   wf_world w -> default_undeclared w c -> declared w n v = true ->
-  collect true true chk w idx c (n, v) fuel [] n (Some v) recursive = Ok (l, s') ->
+  collect true true chk w idx c (Some (n, v)) fuel [] n (Some v) recursive = Ok (l, s') ->
   all_real (uniq_nodes l) /\ forall q, In q (uniq_nodes l) -> dnode w q.
 Proof.
   intros Hwf Hdef D H.
   assert (K : forall q, In q (uniq_nodes l) -> dnode w q).
-  { intros q I. apply (proj1 (uniq_nodes_In _ _)) in I. apply (collect_listed_dnode chk w idx c (n, v) Hwf Hdef _ _ _ _ _ _ _ H D I). }
+  { intros q I. apply (proj1 (uniq_nodes_In _ _)) in I. apply (collect_listed_dnode chk w idx c (Some (n, v)) Hwf Hdef _ _ _ _ _ _ _ H D I). }
   split; [|exact K]. intros q I. destruct (dnode_shape _ _ (K q I)) as [n' [v' [-> _]]]. exists n', v'. reflexivity.
 Qed.
 
 Lemma gone_iff_doomed chk w idx c fuel st n v recursive l s' :
   wf_world w -> default_undeclared w c -> declared w n v = true ->
-  collect true true chk w idx c (n, v) fuel [] n (Some v) recursive = Ok (l, s') ->
+  collect true true chk w idx c (Some (n, v)) fuel [] n (Some v) recursive = Ok (l, s') ->
   forall s n' v' f', gone c (rdb st) (uniq_nodes l) s n' v' f' <-> doomed w c (rdb st) n v recursive s n' v' f'.
 Proof.
   intros Hwf Hdef D H s n' v' f'. unfold gone, doomed.
@@ -107,9 +163,9 @@ Qed.
 
 (* ---------------------------------------------------------------- frame, for every outcome *)
 
-Theorem remove_frame fuel w c st n v recursive chk res st' :
+Theorem remove_frame keep fuel w c st n v recursive chk res st' :
   wf_world w -> default_undeclared w c -> declared w n v = true ->
-  remove_fixed fuel w c st n v recursive chk = (res, st') ->
+  remove true true keep fuel w c st n v recursive chk = (res, st') ->
   (forall s n' v' f', ~ doomed w c (rdb st) n v recursive s n' v' f' ->
      a_decl (rdb st') s n' v' f' = a_decl (rdb st) s n' v' f') /\
   (forall s n' t f', (forall v', a_tag (rdb st) s n' t f' = Some v' -> ~ doomed w c (rdb st) n v recursive s n' v' f') ->
@@ -121,16 +177,16 @@ Theorem remove_frame fuel w c st n v recursive chk res st' :
      In x (rfs st')).
 Proof.
   intros Hwf Hdef D H.
-  destruct (remove_inv _ _ _ _ _ _ _ _ _ _ H) as [idx [_ [[e [_ [-> _]]]|[l [s' [K Hd]]]]]].
+  destruct (remove_inv _ _ _ _ _ _ _ _ _ _ _ H) as [idx [_ [[e [_ [-> _]]]|[l [s' [K Hd]]]]]].
   - repeat split; auto.
   - destruct (listed_real _ _ _ _ _ _ _ _ _ _ Hwf Hdef D K) as [AR _].
     pose proof (uniq_nodes_NoDup l) as ND.
     pose proof (gone_iff_doomed _ _ _ _ _ st _ _ _ _ _ Hwf Hdef D K) as G.
     split; [|split; [|split]].
-    + intros s n' v' f' N. apply (destroy_decl_frame _ _ _ _ _ _ _ Hd ND AR). rewrite G. exact N.
-    + intros s n' t f' N. apply (destroy_tag_frame _ _ _ _ _ _ _ Hd ND AR). intros v' E. rewrite G. apply (N v' E).
-    + apply (destroy_fs_sub _ _ _ _ _ _ _ Hd AR).
-    + intros x I N. apply (destroy_fs_keep _ _ _ _ _ _ _ Hd AR x I).
+    + intros s n' v' f' N. apply (destroy_decl_frame _ _ _ _ _ _ _ _ Hd ND AR). rewrite G. exact N.
+    + intros s n' t f' N. apply (destroy_tag_frame _ _ _ _ _ _ _ _ Hd ND AR). intros v' E. rewrite G. apply (N v' E).
+    + apply (destroy_fs_sub _ _ _ _ _ _ _ _ Hd AR).
+    + intros x I N. apply (destroy_fs_keep _ _ _ _ _ _ _ _ Hd AR x I).
       intros p dir Ip. apply N. apply (listed_iff_asked _ _ _ _ _ _ _ _ _ _ Hwf Hdef D K). exact Ip.
 Qed.
 
@@ -157,24 +213,24 @@ Proof.
 Qed.
 
 (* with non-nested installation directories every path of a surviving declaration's directory stays *)
-Theorem remove_frame_dirs fuel w c st n v recursive chk res st' s0 m u f0 rs :
+Theorem remove_frame_dirs keep fuel w c st n v recursive chk res st' s0 m u f0 rs :
   wf_world w -> default_undeclared w c -> declared w n v = true -> wf_dirs (rdb st) ->
-  remove_fixed fuel w c st n v recursive chk = (res, st') ->
+  remove true true keep fuel w c st n v recursive chk = (res, st') ->
   a_decl (rdb st) s0 m u f0 = Some rs -> placeholder (fst rs) = false ->
   ~ doomed w c (rdb st) n v recursive s0 m u f0 ->
   forall x, under (fst rs) x = true -> (In x (rfs st') <-> In x (rfs st)).
 Proof.
   intros Hwf Hdef D Hd H Es Ps Ns x Ux.
-  destruct (remove_frame _ _ _ _ _ _ _ _ _ _ Hwf Hdef D H) as [_ [_ [F1 F2]]].
+  destruct (remove_frame _ _ _ _ _ _ _ _ _ _ _ Hwf Hdef D H) as [_ [_ [F1 F2]]].
   split; [apply F1|]. intro I. apply (F2 x I). intros q dir Aq Pq Pd.
   apply (survivor_dir_apart w c (rdb st) n v recursive s0 m u f0 rs q dir x); assumption.
 Qed.
 
 (* ---------------------------------------------------------------- a completed run removes exactly what was asked *)
 
-Theorem remove_exact fuel w c st n v recursive chk st' :
+Theorem remove_exact keep fuel w c st n v recursive chk st' :
   wf_world w -> default_undeclared w c -> declared w n v = true ->
-  remove_fixed fuel w c st n v recursive chk = (Ok tt, st') ->
+  remove true true keep fuel w c st n v recursive chk = (Ok tt, st') ->
   (forall s n' v' f', doomed w c (rdb st) n v recursive s n' v' f' -> a_decl (rdb st') s n' v' f' = None) /\
   (forall s n' v' f', ~ doomed w c (rdb st) n v recursive s n' v' f' ->
      a_decl (rdb st') s n' v' f' = a_decl (rdb st) s n' v' f') /\
@@ -182,24 +238,29 @@ Theorem remove_exact fuel w c st n v recursive chk st' :
      a_tag (rdb st') s n' t f' = None) /\
   (forall s n' t f', (forall v', a_tag (rdb st) s n' t f' = Some v' -> ~ doomed w c (rdb st) n v recursive s n' v' f') ->
      a_tag (rdb st') s n' t f' = a_tag (rdb st) s n' t f') /\
-  (forall x, In x (rfs st') <->
+  (keep = false \/ wf_dirs (rdb st) ->
+   forall x, In x (rfs st') <->
      In x (rfs st) /\
      ~ exists q dir, asked w n v recursive q /\ product_dir c (rdb st) q = Some dir /\ placeholder dir = false /\
                      under dir x = true).
 Proof.
   intros Hwf Hdef D H.
-  destruct (remove_frame _ _ _ _ _ _ _ _ _ _ Hwf Hdef D H) as [F1 [F2 [F3 F4]]].
-  destruct (remove_inv _ _ _ _ _ _ _ _ _ _ H) as [idx [_ [[e [E _]]|[l [s' [K Hd]]]]]]; [discriminate|].
+  destruct (remove_frame _ _ _ _ _ _ _ _ _ _ _ Hwf Hdef D H) as [F1 [F2 [F3 F4]]].
+  destruct (remove_inv _ _ _ _ _ _ _ _ _ _ _ H) as [idx [_ [[e [E _]]|[l [s' [K Hd]]]]]]; [discriminate|].
   destruct (listed_real _ _ _ _ _ _ _ _ _ _ Hwf Hdef D K) as [AR _].
   pose proof (uniq_nodes_NoDup l) as ND.
   pose proof (gone_iff_doomed _ _ _ _ _ st _ _ _ _ _ Hwf Hdef D K) as G.
   pose proof (listed_iff_asked _ _ _ _ _ _ _ _ _ _ Hwf Hdef D K) as LA.
   split; [|split; [exact F1|split; [|split; [exact F2|]]]].
-  - intros s n' v' f' Hg. apply (destroy_decl_gone _ _ _ _ _ _ Hd ND AR). apply G, Hg.
-  - intros s n' t f' v' E Hg. apply (destroy_tag_gone _ _ _ _ _ _ Hd ND AR s n' t f' v' E). apply G, Hg.
-  - intro x. split.
+  - intros s n' v' f' Hg. apply (destroy_decl_gone _ _ _ _ _ _ _ Hd ND AR). apply G, Hg.
+  - intros s n' t f' v' E Hg. apply (destroy_tag_gone _ _ _ _ _ _ _ Hd ND AR s n' t f' v' E). apply G, Hg.
+  - intros Hk x.
+    assert (Hd0 : destroy false c (rdb st) (uniq_nodes l) [] st = (Ok tt, st')).
+    { destruct keep; [|exact Hd]. destruct Hk as [Hk|Hk]; [discriminate|].
+      rewrite <- (destroy_keep_irrelevant c (rdb st) Hk (uniq_nodes l) [] st ND AR); auto. }
+    split.
     + intro I. split; [apply F3, I|]. intros [q [dir [Aq [Pq [Pd U]]]]].
-      apply (destroy_fs_gone _ _ _ _ _ _ Hd AR) with (p := q) (dir := dir) (x := x); auto.
+      apply (destroy_fs_gone _ _ _ _ _ _ Hd0 AR) with (p := q) (dir := dir) (x := x); auto.
       * intros d [].
       * apply LA, Aq.
     + intros [I N]. apply (F4 x I). intros q dir Aq Pq Pd.
@@ -208,33 +269,34 @@ Qed.
 
 (* ---------------------------------------------------------------- refusals and errors *)
 
-Lemma dir_step_err c a0 p removed fs e : dir_step c a0 p removed fs = Err e -> e = Crash.
+Lemma dir_step_err keep c a0 a1 p removed fs e : dir_step keep c a0 a1 p removed fs = Err e -> e = Crash.
 Proof.
   unfold dir_step. destruct (mem_odir (product_dir c a0 p) removed); [discriminate|].
   destruct (product_dir c a0 p) as [dir|]; [|discriminate].
-  destruct (placeholder dir); [discriminate|]. destruct (mem_str dir fs); [discriminate|]. intro H. inversion H. reflexivity.
+  destruct (placeholder dir); [discriminate|]. destruct (keep && in_use c a1 dir); [discriminate|].
+  destruct (mem_str dir fs); [discriminate|]. intro H. inversion H. reflexivity.
 Qed.
 
-Lemma destroy_err c a0 : forall ps removed st e st',
-  destroy c a0 ps removed st = (Err e, st') -> all_real ps -> e = NotFound \/ e = Crash.
+Lemma destroy_err keep c a0 : forall ps removed st e st',
+  destroy keep c a0 ps removed st = (Err e, st') -> all_real ps -> e = NotFound \/ e = Crash.
 Proof.
   induction ps as [|p ps IH]; intros removed st e st' H AR; [discriminate|].
   destruct (AR p (or_introl eq_refl)) as [n1 [v1 ->]].
-  destruct (destroy_inv _ _ _ _ _ _ _ _ _ H) as [[_ [E _]]|[s1 [rr [_ [[e' [D [E _]]]|[removed' [fs' [_ Hrec]]]]]]]].
+  destruct (destroy_inv _ _ _ _ _ _ _ _ _ _ H) as [[_ [E _]]|[s1 [rr [_ [[e' [D [E _]]]|[removed' [fs' [_ Hrec]]]]]]]].
   - inversion E. auto.
-  - inversion E. subst. right. apply (dir_step_err _ _ _ _ _ _ D).
+  - inversion E. subst. right. apply (dir_step_err _ _ _ _ _ _ _ _ D).
   - apply (IH _ _ _ _ Hrec (all_real_tail _ _ AR)).
 Qed.
 
 (* the in-use refusal is raised during the collection: nothing has been touched *)
-Theorem refusal_keeps_state fuel w c st n v recursive chk st' :
+Theorem refusal_keeps_state keep fuel w c st n v recursive chk st' :
   wf_world w -> default_undeclared w c -> declared w n v = true ->
-  remove_fixed fuel w c st n v recursive chk = (Err Refused, st') -> st' = st.
+  remove true true keep fuel w c st n v recursive chk = (Err Refused, st') -> st' = st.
 Proof.
   intros Hwf Hdef D H.
-  destruct (remove_inv _ _ _ _ _ _ _ _ _ _ H) as [idx [_ [[e [_ [E _]]]|[l [s' [K Hd]]]]]]; [exact E|].
+  destruct (remove_inv _ _ _ _ _ _ _ _ _ _ _ H) as [idx [_ [[e [_ [E _]]]|[l [s' [K Hd]]]]]]; [exact E|].
   destruct (listed_real _ _ _ _ _ _ _ _ _ _ Hwf Hdef D K) as [AR _].
-  destruct (destroy_err _ _ _ _ _ _ _ Hd AR); discriminate.
+  destruct (destroy_err _ _ _ _ _ _ _ _ Hd AR); discriminate.
 Qed.
 
 Lemma asked_product_dir_nested w c a n v recursive p q dp dq :
@@ -257,16 +319,16 @@ Qed.
 
 (* when the world describes the database and the directories are there and non-nested, the
    destruction cannot fail: every error is raised before the first write *)
-Theorem error_keeps_state fuel w c st n v recursive chk e st' :
+Theorem error_keeps_state keep fuel w c st n v recursive chk e st' :
   wf_world w -> default_undeclared w c -> declared w n v = true ->
   coherent w c (rdb st) -> wf_dirs (rdb st) -> dirs_present w c st n v recursive ->
-  remove_fixed fuel w c st n v recursive chk = (Err e, st') -> st' = st.
+  remove true true keep fuel w c st n v recursive chk = (Err e, st') -> st' = st.
 Proof.
   intros Hwf Hdef D Hco Hd Hp H.
-  destruct (remove_inv _ _ _ _ _ _ _ _ _ _ H) as [idx [_ [[e' [_ [E _]]]|[l [s' [K Hdes]]]]]]; [exact E|].
+  destruct (remove_inv _ _ _ _ _ _ _ _ _ _ _ H) as [idx [_ [[e' [_ [E _]]]|[l [s' [K Hdes]]]]]]; [exact E|].
   destruct (listed_real _ _ _ _ _ _ _ _ _ _ Hwf Hdef D K) as [AR DN].
   pose proof (listed_iff_asked _ _ _ _ _ _ _ _ _ _ Hwf Hdef D K) as LA.
-  destruct (destroy_total c (rdb st) (uniq_nodes l) [] st (uniq_nodes_NoDup l) AR) as [st'' E].
+  destruct (destroy_total keep c (rdb st) (uniq_nodes l) [] st (uniq_nodes_NoDup l) AR) as [st'' E].
   - intros n' v' I. apply Hco. destruct (dnode_shape _ _ (DN _ I)) as [n2 [v2 [E2 D2]]]. inversion E2. subst. exact D2.
   - intros p dir I P Ph. right. apply (Hp p dir); auto. apply LA, I.
   - intros p q dp dq Ip Iq. apply (asked_product_dir_nested w c (rdb st) n v recursive p q dp dq Hd); apply LA; assumption.
@@ -274,49 +336,50 @@ Proof.
 Qed.
 
 (* a refusal needs the in-use check and no force *)
-Theorem refusal_only_with_check fuel w c st n v recursive chk st' :
+Theorem refusal_only_with_check keep fuel w c st n v recursive chk st' :
   wf_world w -> default_undeclared w c -> declared w n v = true -> length w + 2 <= fuel ->
   (chk = true -> exists idx, uses_index fuel w = Ok idx) ->
-  remove_fixed fuel w c st n v recursive chk = (Err Refused, st') -> chk = true /\ rc_force c = false.
+  remove true true keep fuel w c st n v recursive chk = (Err Refused, st') -> chk = true /\ rc_force c = false.
 Proof.
   intros Hwf Hdef D Hf Hu H.
-  destruct (remove_inv _ _ _ _ _ _ _ _ _ _ H) as [idx [Hi [[e [E [_ [K|[Ec Eu]]]]]|[l [s' [K Hd]]]]]].
+  destruct (remove_inv _ _ _ _ _ _ _ _ _ _ _ H) as [idx [Hi [[e [E [_ [K|[Ec Eu]]]]]|[l [s' [K Hd]]]]]].
   - inversion E. subst e.
-    destruct (collect_total chk w idx c (n, v) Hwf fuel [] n v recursive D) as [[a Eq]|[_ R]]; [intros _ []| | |exact R].
+    destruct (collect_total chk w idx c (Some (n, v)) Hwf fuel [] n v recursive D) as [[a Eq]|[_ R]]; [intros _ []| | |exact R].
     + destruct recursive; [|lia]. apply Nat.le_trans with (length w + 2); [apply Nat.add_le_mono_r, unseen_nil|exact Hf].
     + pose proof (eq_trans (eq_sym Eq) K) as X. discriminate X.
   - destruct (Hu Ec) as [idx' Eu']. rewrite Eu' in Eu. discriminate.
   - destruct (listed_real _ _ _ _ _ _ _ _ _ _ Hwf Hdef D K) as [AR _].
-    destruct (destroy_err _ _ _ _ _ _ _ Hd AR); discriminate.
+    destruct (destroy_err _ _ _ _ _ _ _ _ Hd AR); discriminate.
 Qed.
 
 (* ---------------------------------------------------------------- needed products are not removed *)
 
 Lemma check_passed_no_outside_user chk idx c top d us :
   chk = true -> rc_force c = false -> check_one chk idx c top d = Ok tt ->
-  users idx (nname d) (nver d) = Ok us -> forall u, In u (map cuser us) -> u = top.
+  users idx (nname d) (nver d) = Ok us -> forall u, In u (map cuser us) -> top = Some u.
 Proof.
   intros -> Hf H Hu u I. unfold check_one in H. rewrite Hu, Hf in H. cbn [negb] in H. rewrite andb_true_r in H.
-  destruct (existsb (fun u0 => negb (user_eqb (cuser u0) top)) us) eqn:E; [discriminate|].
+  destruct (existsb (fun u0 => negb (is_top top (cuser u0))) us) eqn:E; [discriminate|].
   apply in_map_iff in I as [x [<- Ix]].
-  pose proof (proj1 (existsb_false_forall _ _) E x Ix) as K. apply negb_false_iff, user_eqb_eq in K. exact K.
+  pose proof (proj1 (existsb_false_forall _ _) E x Ix) as K. apply negb_false_iff in K. unfold is_top in K.
+  destruct top as [t|]; [|discriminate]. apply user_eqb_eq in K. rewrite K. reflexivity.
 Qed.
 
 (* with the in-use check and without force: if a product that would be deleted (d) is reached through the
    table files from a declared product that would remain (u), the command is refused and nothing changes *)
-Theorem remove_refuses_when_needed fuel w c st n v recursive idx d u :
+Theorem remove_refuses_when_needed keep fuel w c st n v recursive idx d u :
   wf_world w -> default_undeclared w c -> declared w n v = true -> length w + 2 <= fuel ->
   uses_index fuel w = Ok idx -> rc_force c = false ->
   asked w n v recursive d ->
   In u (map fst w) -> ~ asked w n v recursive (pnode u) -> reach_plus w (pnode u) d ->
-  remove_fixed fuel w c st n v recursive true = (Err Refused, st).
+  remove true true keep fuel w c st n v recursive true = (Err Refused, st).
 Proof.
   intros Hwf Hdef D Hf Hu Hforce Ad Iu Nu R.
-  assert (G : good true c (collect true true true w idx c (n, v) fuel [] n (Some v) recursive)).
-  { apply (collect_total true w idx c (n, v) Hwf fuel [] n v recursive D).
+  assert (G : good true c (collect true true true w idx c (Some (n, v)) fuel [] n (Some v) recursive)).
+  { apply (collect_total true w idx c (Some (n, v)) Hwf fuel [] n v recursive D).
     - intros _ [].
     - destruct recursive; [|lia]. apply Nat.le_trans with (length w + 2); [apply Nat.add_le_mono_r, unseen_nil|exact Hf]. }
-  unfold remove_fixed, remove. rewrite Hu.
+  unfold remove. rewrite Hu.
   match goal with |- context [match ?X with Ok _ => _ | Err _ => _ end] => destruct X as [[l s']|e] eqn:K end.
   - exfalso.
     assert (Il : In d l).
@@ -327,8 +390,8 @@ Proof.
     { apply (uses_inverse_reach fuel w idx (nname d) (nver d) us u); [lia|exact Hu|exact Eus|].
       split; [exact Iu|]. exists d. split; [intro E; apply Nu; rewrite <- E; exact Ad|]. split; [exact R|].
       unfold matches. split; [reflexivity|]. destruct (nver d); reflexivity. }
-    pose proof (check_passed_no_outside_user true idx c (n, v) d us eq_refl Hforce Hc Eus u Iu') as E.
-    apply Nu. subst u. left. reflexivity.
+    pose proof (check_passed_no_outside_user true idx c (Some (n, v)) d us eq_refl Hforce Hc Eus u Iu') as E.
+    apply Nu. inversion E. subst u. left. reflexivity.
   - destruct G as [[a Eq]|[Eq _]]; [discriminate Eq|]. inversion Eq. reflexivity.
 Qed.
 
@@ -336,18 +399,18 @@ Qed.
 
 (* without the in-use check, or with force, on any graph (cycles, shared dependencies, several
    versions of a product, unresolved dependencies): the command ends normally *)
-Theorem remove_completes fuel w c st n v recursive chk :
+Theorem remove_completes keep fuel w c st n v recursive chk :
   wf_world w -> default_undeclared w c -> declared w n v = true -> length w + 2 <= fuel ->
   (chk = true -> exists idx, uses_index fuel w = Ok idx) ->
   chk = false \/ rc_force c = true ->
   coherent w c (rdb st) -> wf_dirs (rdb st) -> dirs_present w c st n v recursive ->
-  exists st', remove_fixed fuel w c st n v recursive chk = (Ok tt, st').
+  exists st', remove true true keep fuel w c st n v recursive chk = (Ok tt, st').
 Proof.
   intros Hwf Hdef D Hf Hu Hmode Hco Hd Hp.
-  destruct (remove_fixed fuel w c st n v recursive chk) as [[[]|e] st'] eqn:H; [eauto|]. exfalso.
-  pose proof (error_keeps_state _ _ _ _ _ _ _ _ _ _ Hwf Hdef D Hco Hd Hp H) as ->.
-  destruct (remove_inv _ _ _ _ _ _ _ _ _ _ H) as [idx [Hi [[e' [E [_ [K|[Ec Eu]]]]]|[l [s' [K Hdes]]]]]].
-  - destruct (collect_total chk w idx c (n, v) Hwf fuel [] n v recursive D) as [[a Eq]|[_ [R1 R2]]].
+  destruct (remove true true keep fuel w c st n v recursive chk) as [[[]|e] st'] eqn:H; [eauto|]. exfalso.
+  pose proof (error_keeps_state _ _ _ _ _ _ _ _ _ _ _ Hwf Hdef D Hco Hd Hp H) as ->.
+  destruct (remove_inv _ _ _ _ _ _ _ _ _ _ _ H) as [idx [Hi [[e' [E [_ [K|[Ec Eu]]]]]|[l [s' [K Hdes]]]]]].
+  - destruct (collect_total chk w idx c (Some (n, v)) Hwf fuel [] n v recursive D) as [[a Eq]|[_ [R1 R2]]].
     + intros _ [].
     + destruct recursive; [|lia]. apply Nat.le_trans with (length w + 2); [apply Nat.add_le_mono_r, unseen_nil|exact Hf].
     + pose proof (eq_trans (eq_sym Eq) K) as X. discriminate X.
@@ -355,7 +418,7 @@ Proof.
   - destruct (Hu Ec) as [idx' Eu']. rewrite Eu' in Eu. discriminate.
   - destruct (listed_real _ _ _ _ _ _ _ _ _ _ Hwf Hdef D K) as [AR DN].
     pose proof (listed_iff_asked _ _ _ _ _ _ _ _ _ _ Hwf Hdef D K) as LA.
-    destruct (destroy_total c (rdb st) (uniq_nodes l) [] st (uniq_nodes_NoDup l) AR) as [st'' E].
+    destruct (destroy_total keep c (rdb st) (uniq_nodes l) [] st (uniq_nodes_NoDup l) AR) as [st'' E].
     + intros n' v' I. apply Hco. destruct (dnode_shape _ _ (DN _ I)) as [n2 [v2 [E2 D2]]]. inversion E2. subst. exact D2.
     + intros p dir I P Ph. right. apply (Hp p dir); auto. apply LA, I.
     + intros p q dp dq Ip Iq. apply (asked_product_dir_nested w c (rdb st) n v recursive p q dp dq Hd); apply LA; assumption.
